@@ -6,7 +6,8 @@ Open Scope Z_scope.
 Open Scope list_scope.
 
 Section Events.
-Variables tpq tempo : Z.
+Variable tpq : Z.
+Variable tempo : Q.
 Variable t : nat.
 Local Notation sc := (secs tpq tempo).
 
@@ -141,12 +142,12 @@ End Events.
 (* the unrepaired code added a continuation's length in QUARTER NOTES to a duration in seconds: refuted at tempo 120 *)
 Example events_unscaled_refuted :
   let rows := [mkRow 0 0 1 66 0 false false; mkRow 0 1 1 66 0 false true] in
-  map (fun e => Qeq_bool (e_dur e) (secs 1 120 2)) (matrix_to_events true 1 120 rows) = [true] /\
-  map (fun e => Qeq_bool (e_dur e) (secs 1 120 2)) (matrix_to_events false 1 120 rows) = [false].
+  map (fun e => Qeq_bool (e_dur e) (secs 1 (120#1) 2)) (matrix_to_events true 1 (120#1) rows) = [true] /\
+  map (fun e => Qeq_bool (e_dur e) (secs 1 (120#1) 2)) (matrix_to_events false 1 (120#1) rows) = [false].
 Proof. split; vm_compute; reflexivity. Qed.
 
 (* with C03's theorem on rows: the audible events of a track are its sounding notes, in seconds *)
-Definition ev_of_snote (tpq tempo : Z) (t : nat) (n : snote) : event :=
+Definition ev_of_snote (tpq : Z) (tempo : Q) (t : nat) (n : snote) : event :=
   mkEv (s_pitch n) (secs tpq tempo (s_on n)) (secs tpq tempo (s_dur n)) (s_vel n) t false.
 
 Lemma audible_as_snotes tpq tempo t l : map (ev_of tpq tempo t) (audible l) = map (ev_of_snote tpq tempo t) (map snote_of (audible l)).
